@@ -545,7 +545,7 @@ def rec_phantoms(run, g, i):
     return [l[3] for l in run if l[0] == 12 and l[1] == g and l[2] == i and l[7] == 0 and l[8] == 1]
 
 
-def oracle_timers(pc, run, fails, aborted_ok):
+def oracle_timers(pc, run, fails, aborted_ok, kind_fn=None):
     """Every pending node-scheduler wake-up of every node at every depth is honoured (the node is evaluated
     at that time) - a spec of the scheduler's pending set replayed from the scripts, as in gen/core.py."""
     start, end = pc["start"], pc["end"]
@@ -567,6 +567,8 @@ def oracle_timers(pc, run, fails, aborted_ok):
                     spec_sched(key, start, False, start + a, b)
     open_eval = None
     aborted = set()       # (graph, t): the cycle of that graph at t was abandoned by a captured exception
+    lost = []
+    kind_fn = kind_fn or (lambda key, t: "wake_lost")
 
     def finish(ev):
         if ev is None:
@@ -585,7 +587,8 @@ def oracle_timers(pc, run, fails, aborted_ok):
                         pending[key].discard(e)
                         if (key[0], e[0]) in aborted and aborted_ok:
                             continue
-                        fails.append(("wake_lost", "node %s pending %s not honoured before root cycle %d" % (key, e, l[2])))
+                        lost.append((key, e[0]))
+                        fails.append((kind_fn(key, e[0]), "node %s pending %s not honoured before root cycle %d" % (key, e, l[2])))
         elif l[0] == 11:
             finish(open_eval)
             open_eval = ((l[1], l[2]), l[3])
@@ -622,7 +625,9 @@ def oracle_timers(pc, run, fails, aborted_ok):
                 if start <= e[0] < end:
                     if (key[0], e[0]) in aborted and aborted_ok:
                         continue
-                    fails.append(("wake_lost", "node %s pending %s never honoured (end %d)" % (key, e, end)))
+                    lost.append((key, e[0]))
+                    fails.append((kind_fn(key, e[0]), "node %s pending %s never honoured (end %d)" % (key, e, end)))
+    return lost
 
 
 def oracle_clocks(pc, run, fails):
@@ -753,8 +758,6 @@ def oracle_c15(pc, runs, fails):
         if fin and not exp and fin[0][3] == 1 and fin[0][4] != 3:
             fails.append(("error_tick_spurious", "final error output of %s valid (%s) although nothing threw" % (cap, fin[0])))
     # ---- later cycles: the wrapped nodes are evaluated normally again
-    emitted = set()
-    evaluated = set()
     abort_idx = {}         # (graph, t) -> node indices at which that graph's cycle at t was abandoned
     for (g, i, t, code) in th:
         cap = enclosing_try(pc, g, i)
@@ -767,6 +770,34 @@ def oracle_c15(pc, runs, fails):
     failed_at = {}
     for (gg, t) in abort_idx:
         failed_at.setdefault(gg, []).append(t)
+
+    def failed_before(g, t):
+        """an abandoned cycle, before t, of graph g or of a graph enclosing it (below the capturing node)"""
+        while g is not None:
+            if any(x < t for x in failed_at.get(g, [])):
+                return True
+            par = pc["parent"].get(g)
+            g = par[0] if par else None
+        return False
+
+    def thrown_before(key, t):
+        return any((x[0], x[1]) == key and x[2] < t for x in th)
+
+    lost = oracle_timers(pc, run, fails, aborted_ok=True,
+                         kind_fn=lambda key, t: "wake_lost_after_captured_error"
+                         if (failed_before(key[0], t) and pc["nodes"][key]["kind"] != 3) else "wake_lost")
+    # raw graph.schedule_node(self, now+a) requests that were never honoured (they keep the earliest only, by
+    # design; here they only serve to explain a swallowed tick)
+    evald = set((l[1], l[2], l[3]) for l in run if l[0] == 11)
+    for l in run:
+        if l[0] == 12:
+            for (code, a_, b_) in script_for(pc["scripts"], l[1], l[2], l[4]):
+                if code == 8:
+                    break
+                if code == 7 and a_ > 0 and (l[1], l[2], l[3] + a_) not in evald:
+                    lost.append(((l[1], l[2]), l[3] + a_))
+    emitted = set()
+    evaluated = set()
     for l in run:
         if l[0] == 14:
             emitted.add((l[1], l[2], 0, l[3]))
@@ -798,8 +829,12 @@ def oracle_c15(pc, runs, fails):
                     gg, ii = par
                 if ab:
                     continue
-                prev_fail = sorted(x for x in failed_at.get(g, []) if x < t)
+                prev_fail = sorted(x for x in failed_at.get(g, []) if x < t) or ([-1] if failed_before(g, t) else [])
                 kind = "lost_tick_after_captured_error" if prev_fail else "not_evaluated"
+                if prev_fail and any(k == (g, i) and prev_fail[0] < w < t for (k, w) in lost) \
+                        and any(m[0] == 10 and m[1] == g and m[2] == t for m in run):
+                    # the graph did start a fresh cycle; the node still holds the slot of a wake-up that was lost
+                    kind = "tick_swallowed_after_captured_error"
                 fails.append((kind, "node (%d,%d) not evaluated at %d although its active input %d (bound to %s) ticked%s"
                               % (g, i, t, s, ep, "; its graph abandoned a cycle at %s after a captured error" % prev_fail if prev_fail else "")))
     # every cycle of a wrapped graph after an abandoned one starts afresh (it is announced and scans from node 0)
@@ -824,7 +859,6 @@ def oracle_c15(pc, runs, fails):
         if not th:
             if run != clean_run:
                 fails.append(("interference", "no throw happened but the two runs differ"))
-    oracle_timers(pc, run, fails, aborted_ok=True)
 
 
 def oracle(prop, case, out):
@@ -851,7 +885,7 @@ PROP_KINDS = {
             "wake_lost", "stale_read", "run_stopped", "trace_shape", "build_error", "phantom_tick_forwarding_rebind"},
     "C15": {"run_stopped", "uncaptured_swallowed", "error_tick_missing", "error_tick_twice", "error_message", "error_tick_spurious",
             "error_tick_secondary", "lost_tick_after_captured_error", "not_evaluated", "interference", "clean_run_failed",
-            "child_early", "wake_lost", "build_error"},
+            "child_early", "wake_lost", "build_error", "wake_lost_after_captured_error", "tick_swallowed_after_captured_error"},
 }
 
 
